@@ -37,7 +37,7 @@ ASSUMPTIONS = [
     "nothing is demanded about when within the call sequence a frame is returned",
     "check-sequence accessors may present the two octets as bytes or as an integer in either octet order",
 ]
-MUST_FIRE = {"quick": ["cut_after_escape", "max_size_frame", "header_only_frame", "leading_noise", "bystander_reader_instance", "chunks_as_bytearray"], "thorough": ["cut_after_escape", "max_size_frame", "header_only_frame", "leading_noise", "extra_escaped_octets"]}
+MUST_FIRE = {"quick": ["cut_after_escape", "max_size_frame", "header_only_frame", "leading_noise", "special_check_sequence_value", "bystander_reader_instance", "chunks_as_bytearray"], "thorough": ["cut_after_escape", "max_size_frame", "header_only_frame", "leading_noise", "extra_escaped_octets"]}
 
 
 def gen(rng, tier, index):
@@ -146,6 +146,8 @@ def execute(sc):
         probes["header_only_frame"] = 1
     if sc["items"] and sc["items"][0]["t"] == "raw":
         probes["leading_noise"] = 1
+    if any(it.get("special") for _, it in sent):
+        probes["special_check_sequence_value"] = 1
     if any(it.get("extra_esc") for _, it in sent):
         probes["extra_escaped_octets"] = 1
     if by:
